@@ -218,21 +218,14 @@ fn main() {
             explore::cleanup_scratch();
             r
         }
-        "e3shard" => e3::shard_main(&args[2..], &|prop, tier| match prop {
-            "C14" => props::c14::bodies(tier),
-            "C06" => props::c06::bodies(tier),
-            "C10" => props::c10::bodies(tier),
-            "C02" => props::c02::bodies(tier),
-            "C13" => props::c13::bodies(tier),
-            "C16" => props::c16::bodies(tier),
-            "C01" => props::c01::bodies(tier),
-            "C04" => props::c04::bodies(tier),
-            "C07" => props::c07::bodies(tier),
-            "C08" => props::c08::bodies(tier),
-            "C05" => props::c05e3::bodies(tier),
-            "C17" => props::c17e3::bodies(tier),
-            _ => vec![],
-        }),
+        "e3shard" => e3::shard_main(&args[2..], &e3_bodies_of),
+        "e3dbg" => {
+            // fjv e3dbg <prop> <tier> <body index> [choices,comma-separated]: prints every decision of one schedule
+            let bodies = e3::with_variants(e3_bodies_of(&args[2], &args[3]), &args[3]);
+            let bi: usize = args[4].parse().unwrap_or(0);
+            let choices: Vec<usize> = args.get(5).map(|s| s.split(',').filter_map(|c| c.parse().ok()).collect()).unwrap_or_default();
+            e3::debug_schedule(&*bodies[bi].body, &choices)
+        }
         "drv" => {
             world::install_seq_hooks();
             shimrun::driver_main(&args[2..])
@@ -348,4 +341,22 @@ pub fn dbg_open(dir: &str) -> i32 {
     let r = crash::recover_and_observe(std::path::Path::new(dir), &world::Cfg::default2());
     println!("{dir}: {:?}", match r { crash::Recovered::Ok { content, .. } => crash::show_content(&content), o => format!("{o:?}") });
     0
+}
+
+fn e3_bodies_of(prop: &str, tier: &str) -> Vec<e3::BodySpec> {
+    match prop {
+        "C14" => props::c14::bodies(tier),
+        "C06" => props::c06::bodies(tier),
+        "C10" => props::c10::bodies(tier),
+        "C02" => props::c02::bodies(tier),
+        "C13" => props::c13::bodies(tier),
+        "C16" => props::c16::bodies(tier),
+        "C01" => props::c01::bodies(tier),
+        "C04" => props::c04::bodies(tier),
+        "C07" => props::c07::bodies(tier),
+        "C08" => props::c08::bodies(tier),
+        "C05" => props::c05e3::bodies(tier),
+        "C17" => props::c17e3::bodies(tier),
+        _ => vec![],
+    }
 }
